@@ -20,6 +20,20 @@ thread_local! {
     static PREEMPTION: Cell<bool> = const { Cell::new(false) };
     static YIELD_REQUESTED: Cell<bool> = const { Cell::new(false) };
     static YIELD_COUNT: Cell<u64> = const { Cell::new(0) };
+    static REWOUND_CHARS: Cell<u64> = const { Cell::new(0) };
+}
+
+/// Records that a lexer moved its position back by `count` characters, which
+/// it will read again. (Called by yash-syntax when its `verif-hooks` feature is
+/// enabled.) The total is a deterministic measure of re-parsing work.
+pub fn count_rewound_chars(count: usize) {
+    REWOUND_CHARS.with(|c| c.set(c.get().saturating_add(count as u64)));
+}
+
+/// Returns the number of characters lexers on this thread have moved back
+/// over, and resets the counter.
+pub fn take_rewound_chars() -> u64 {
+    REWOUND_CHARS.with(|c| c.replace(0))
 }
 
 /// Turns preemption points on or off for the current thread (default: off).
